@@ -52,15 +52,16 @@ def ops_strategy():
 	lazy_def = st.tuples(sym, fac, st.booleans())
 	op = st.one_of(
 		st.tuples(st.just('new'), st.lists(lazy_def, max_size=4)),
-		st.tuples(st.just('bind'), c, sym, fac),
-		st.tuples(st.just('bind'), c, sym, fac),
-		st.tuples(st.just('unbind'), c, sym),
-		st.tuples(st.just('rebind'), c, sym, fac),
+		st.tuples(st.just('bind'), c, sym, fac, st.booleans()),
+		st.tuples(st.just('bind'), c, sym, fac, st.booleans()),
+		st.tuples(st.just('unbind'), c, sym, st.booleans()),
+		st.tuples(st.just('unbind'), c, st.integers(6, 40), st.booleans()),
+		st.tuples(st.just('rebind'), c, sym, fac, st.booleans()),
 		st.tuples(st.just('resolve'), c, sym, st.booleans()),
 		st.tuples(st.just('resolve'), c, st.integers(6, 40), st.booleans()),
 		st.tuples(st.just('resolve'), c, st.integers(6, 40), st.booleans()),
 		st.tuples(st.just('resolve'), c, st.integers(6, 40), st.booleans()),
-		st.tuples(st.just('rebind'), c, st.integers(6, 40), fac),
+		st.tuples(st.just('rebind'), c, st.integers(6, 40), fac, st.booleans()),
 		st.tuples(st.just('invoke'), c, fac, st.sampled_from(['ok', 'ok', 'ok', 'short', 'long', 'type'])),
 		st.tuples(st.just('combine'), c, c),
 		st.tuples(st.just('combine'), c, c),
@@ -266,11 +267,16 @@ class Runner:
 		result = None
 		mresult = None
 
-		if kind in ('bind', 'rebind', 'resolve') and op[2] >= 6:
+		if kind in ('bind', 'rebind', 'resolve', 'unbind') and op[2] >= 6:
 			bound = sorted(mc.map)
 			op = (op[0], op[1], bound[op[2] % len(bound)] if bound else op[2] % 6) + tuple(op[3:])
+		def spelled(s_: int, alias_: bool):
+			# the generic symbol is addressed both as G and as G[int]
+			return u.G[int] if (s_ == 5 and alias_) else u.SYMBOLS[s_]
+
 		if kind in ('bind', 'rebind'):
-			_, _, s, f = op
+			_, _, s, f = op[:4]
+			alias = bool(op[4]) if len(op) > 4 else False
 			if not allowed(s, f):
 				raise Skip()
 			if kind == 'bind' and s in mc.map:
@@ -279,17 +285,18 @@ class Runner:
 				expect_exc = ValueError
 			else:
 				mc.map[s] = MEntry(f, False)
-			self.trace.append(f'c{ci}.{kind}({u.SYMBOL_NAMES[s]}, {f})')
+			self.trace.append(f'c{ci}.{kind}({u.SYMBOL_NAMES[s]}{"[int]" if s == 5 and alias else ""}, {f})')
 			try:
-				getattr(rc, kind)(u.SYMBOLS[s], u.FACTORIES[f][0])
+				getattr(rc, kind)(spelled(s, alias), u.FACTORIES[f][0])
 			except Exception as e:
 				got_exc = e
 		elif kind == 'unbind':
-			_, _, s = op
+			_, _, s = op[:3]
+			alias = bool(op[3]) if len(op) > 3 else False
 			mc.map.pop(s, None)
-			self.trace.append(f'c{ci}.unbind({u.SYMBOL_NAMES[s]})')
+			self.trace.append(f'c{ci}.unbind({u.SYMBOL_NAMES[s]}{"[int]" if s == 5 and alias else ""})')
 			try:
-				rc.unbind(u.SYMBOLS[s])
+				rc.unbind(spelled(s, alias))
 			except Exception as e:
 				got_exc = e
 		elif kind == 'resolve':
